@@ -393,7 +393,15 @@ func (oc *orderCtx) classifyLoop(v *FnView, rs *ast.RangeStmt, depth int) *mapRa
 				}
 			}
 			if allConst {
-				ok(x, "early return of constants / an error (an existence test; which element triggers it does not change the outcome class)")
+				if why := meteredBeforeExit(v, rs); why != "" {
+					if aud, isAud := gasOrderAudit[v.ID()]; isAud {
+						ok(x, "early return of constants / an error after metered store access (%s) - audited: %s", why, aud)
+					} else {
+						bad(x, "early exit of an unordered iteration that reads the store (%s): how many reads are charged to the gas meter before the exit depends on the order, and gas used is part of the transaction result", why)
+					}
+				} else {
+					ok(x, "early return of constants / an error (an existence test; which element triggers it does not change the outcome class)")
+				}
 			} else {
 				bad(x, "early return of a value taken from the iteration: the first match depends on the order")
 			}
@@ -434,7 +442,15 @@ func (oc *orderCtx) classifyLoop(v *FnView, rs *ast.RangeStmt, depth int) *mapRa
 					}
 				}
 				if okExit {
-					ok(x, "break on an error / found-flag exit")
+					if why := meteredBeforeExit(v, rs); why != "" {
+						if aud, isAud := gasOrderAudit[v.ID()]; isAud {
+							ok(x, "break on an error / found-flag exit after metered store access (%s) - audited: %s", why, aud)
+						} else {
+							bad(x, "early exit of an unordered iteration that reads the store (%s): how many reads are charged to the gas meter before the exit depends on the order, and gas used is part of the transaction result", why)
+						}
+					} else {
+						ok(x, "break on an error / found-flag exit")
+					}
 				} else {
 					bad(x, "break out of an unordered iteration: which elements were processed before it depends on the order")
 				}
@@ -1109,6 +1125,8 @@ func runC08(r *Run) {
 		})
 		r.check(okApp && !swaps, "C08.R1p", "witness|nonce-removal-order-preserving|"+nm, nv.pos(nv.Decl), "removing a feeder's nonce item keeps the order of the remaining items (so removals in any order give the same stored list)", nm+" does not delete with append(list[:i], list[i+1:]...) (or moves another element into the gap): the stored nonce list then depends on the order of the sealed feeder ids, which comes from a map iteration")
 	}
+	r.rule("C08.R7", "what one module's EndBlock writes and another's only reads is written first (SetOrderEndBlockers): no EndBlocker acts on a value that a restart would show it one block earlier", 3)
+	endBlockOrderRule(r, "C08.R7")
 	r.rule("C08.R2", "no wall clock, randomness, process environment, goroutines or select in consensus-reachable code", 400)
 	r.rule("C08.R3", "package-level variables written from consensus-reachable code are exactly the audited set", 8)
 	r.rule("C08.R5", "node-local configuration (AppOptions) reaches consensus-reachable code only under ctx.IsCheckTx(), or through an audited field", 2)
@@ -1644,4 +1662,40 @@ func namedOf(t types.Type) *types.Named {
 	}
 	n, _ := t.(*types.Named)
 	return n
+}
+
+// gasOrderAudit: map-ordered loops with an early exit after store access whose exit is argued unreachable.
+var gasOrderAudit = map[string]string{
+	"x/assets/keeper.Keeper.GetStakerSpecifiedAssetInfo": "the exits are failures of GetOperatorSpecifiedAssetInfo / TokensFromShares for an operator named by one of the staker's own delegation records; the operator's asset record is written by the delegation that creates the record and is never deleted, and a non-zero share of an empty pool is excluded by C02's share rules",
+}
+
+// meteredBeforeExit: the loop body makes a call that can be charged to the gas meter (an sdk.Context argument, or
+// a KVStore access). Returns a description of the first such call, or "".
+func meteredBeforeExit(v *FnView, rs *ast.RangeStmt) string {
+	out := ""
+	ast.Inspect(rs.Body, func(n ast.Node) bool {
+		c, ok := n.(*ast.CallExpr)
+		if !ok || out != "" {
+			return out == ""
+		}
+		for _, a := range c.Args {
+			if t := v.Info.TypeOf(a); t != nil && strings.HasSuffix(t.String(), "cosmos-sdk/types.Context") {
+				if nm := v.calleeName(c); !strings.HasPrefix(nm, "Logger") && nm != "Wrap" && nm != "Wrapf" {
+					out = exprString(c.Fun) + "(ctx, ...) at " + v.pos(c)
+					return false
+				}
+			}
+		}
+		if sel, isSel := c.Fun.(*ast.SelectorExpr); isSel {
+			switch sel.Sel.Name {
+			case "Get", "Has", "Set", "Delete", "Iterator", "ReverseIterator":
+				if t := v.Info.TypeOf(sel.X); t != nil && (strings.Contains(t.String(), "Store") || strings.Contains(t.String(), "store")) {
+					out = exprString(c.Fun) + " at " + v.pos(c)
+					return false
+				}
+			}
+		}
+		return true
+	})
+	return out
 }
